@@ -131,6 +131,30 @@ class CBuild:
                     consts[g[1:]] = 0
         return [Module(p) for p in paths], consts
 
+    def layout_consts(self, msgs: List[Tuple[Message, List[str]]], cxx: bool) -> Dict[str, int]:
+        """sizeof / offsetof of every struct as a C (or, with cxx, a C++) translation unit sees them; the C++ unit
+        includes the header twice, as any larger program ends up doing"""
+        ltu = self.write_layout_tu(msgs)
+        src = open(ltu).read()
+        if cxx:
+            inc = f'#include "{self.main}_bp.h"\n'
+            src = inc + src.replace("const unsigned long", 'extern "C" unsigned long')
+            ltu = ltu[:-2] + "_cxx.cc"
+            with open(ltu, "w") as f:
+                f.write(src)
+        out = ltu + ".ll"
+        cmd = ["clang"] + (["-x", "c++"] if cxx else []) + ["-S", "-emit-llvm", "-O0", "-Wno-everything", "-I", self.gen, "-I", LIBC, "-o", out, ltu]
+        r = run(cmd, timeout=120)
+        if r.returncode != 0:
+            raise CompileError(f"clang{'++' if cxx else ''} rejected the header of {self.main}: {r.stderr[-500:]}")
+        consts: Dict[str, int] = {}
+        for g, (ty, init) in Module(out).globals.items():
+            if g.startswith("@bpv_") and init and init[0] == "int":
+                consts[g[1:]] = init[1]
+            elif g.startswith("@bpv_") and init and init[0] == "zero":
+                consts[g[1:]] = 0
+        return consts
+
     def shared_object(self, olevel: str = "O2", defines: Sequence[str] = ()) -> str:
         so = os.path.join(self.dir, f"native_{olevel}_{'_'.join(defines)}.so")
         if not os.path.exists(so):
